@@ -111,10 +111,17 @@ func RunTx(c Case) (verifkit.Outcome, error) {
 			before := committed()
 			t.rec.Take()
 			var err error
-			if op.Kind == "set" {
-				err = view.Set(t.rec, op.Req, DeepCopy(op.Val))
-			} else {
+			switch {
+			case op.Kind == "unset":
 				err = view.Unset(t.rec, op.Req)
+			case m.SetSpins(op.Req, op.Val):
+				var verdict error
+				err, verdict = Guarded(when, func() error { return view.Set(t.rec, op.Req, DeepCopy(op.Val)) })
+				if verdict != nil {
+					return st.Outcome(c, ""), verdict
+				}
+			default:
+				err = view.Set(t.rec, op.Req, DeepCopy(op.Val))
 			}
 			writes, verr := m.CheckWrite(op.Kind, op.Req, op.Val, t.rec.Take(), err)
 			if verr != nil {
@@ -247,10 +254,17 @@ func RunBag(c Case) (verifkit.Outcome, error) {
 			before := content()
 			rec.Take()
 			var err error
-			if op.Kind == "set" {
-				err = view.Set(rec, op.Req, DeepCopy(op.Val))
-			} else {
+			switch {
+			case op.Kind == "unset":
 				err = view.Unset(rec, op.Req)
+			case m.SetSpins(op.Req, op.Val):
+				var verdict error
+				err, verdict = Guarded(when, func() error { return view.Set(rec, op.Req, DeepCopy(op.Val)) })
+				if verdict != nil {
+					return st.Outcome(c, ""), verdict
+				}
+			default:
+				err = view.Set(rec, op.Req, DeepCopy(op.Val))
 			}
 			writes, verr := m.CheckWrite(op.Kind, op.Req, op.Val, rec.Take(), err)
 			if verr != nil {
